@@ -5,6 +5,8 @@ import EraVerif.Model.RpcLimit
 # Helper lemmas for the per-connection half of C15 (`Model/RpcLimit.lean`)
 -/
 
+set_option linter.unusedSimpArgs false
+
 namespace EraVerif.Proofs.RpcLimit
 open EraVerif.Model EraVerif.Model.Limiter EraVerif.Proofs.Limiter
 
